@@ -133,10 +133,24 @@ def check_property(prop, tier="quick", seed=0, update_lock=False):
     for name in vacuity["contradictory"]:
         checker_errors.append("vacuity: contradictory assumptions at %s" % name)
     lock = load_lock()
-    locked = set(lock.get(prop, []))
+    entry = lock.get(prop, {})
+    if isinstance(entry, list):
+        entry = {"obligations": entry, "sources": {}}
+    locked = set(entry.get("obligations", []))
+    locked_src = entry.get("sources", {})
+    cur_src = {r.target: r.source_hash for r in fun_results}
     known = load_known()
     known_here = [k for k in known.get("known", []) if k["property"] == prop]
 
+    # an `unknown` on an obligation of a function whose source is byte-identical to the tree the proof was locked on is a
+    # solver hiccup (load, scheduling), not evidence about the code: retry alone with a much larger budget
+    retry = [k for k, ((ob, group), res) in enumerate(zip(all_obs, results))
+             if res["verdict"] == "unknown" and ob_key(ob) in locked and locked_src.get(ob.func) == cur_src.get(ob.func, "?")]
+    if retry:
+        again = discharge([all_obs[k][0] for k in retry], timeout_ms=max(timeout * 6, 90000))
+        for k, r in zip(retry, again):
+            r["retried"] = True
+            results[k] = r
     failures = []
     for (ob, group), res in zip(all_obs, results):
         if res["verdict"] == "proved":
@@ -158,9 +172,11 @@ def check_property(prop, tier="quick", seed=0, update_lock=False):
         if kf is not None:
             known_hits.append((kf, ob, res))
             continue
-        if res["verdict"] == "refuted" or key in locked:
+        unchanged_src = locked_src.get(ob.func) is not None and locked_src.get(ob.func) == cur_src.get(ob.func, "?")
+        if res["verdict"] == "refuted" or (key in locked and not unchanged_src):
             violations.append((ob, res))
         else:
+            # never proved before, or the code is unchanged and the solver still did not answer: undecided, not a violation
             undecided_obs.append((ob, res))
 
     # run-time findings (bounded search over the real code)
@@ -209,7 +225,8 @@ def check_property(prop, tier="quick", seed=0, update_lock=False):
         exit_code = 3 if exit_code == 0 else exit_code
 
     if update_lock:
-        lock[prop] = sorted({ob_key(ob) for (ob, g), res in zip(all_obs, results) if res["verdict"] == "proved"})
+        lock[prop] = {"obligations": sorted({ob_key(ob) for (ob, g), res in zip(all_obs, results) if res["verdict"] == "proved"}),
+                      "sources": {r.target: r.source_hash for r in fun_results}}
         json.dump(lock, open(LOCK, "w"), indent=0, sort_keys=True)
 
     write_evidence(prop, tier, seed, reg, meta, fun_results, all_obs, results, known_hits, violations, undecided,
